@@ -1,7 +1,9 @@
 package yqlib
 
 import (
+	"bytes"
 	"container/list"
+	"io"
 	"strings"
 
 	yaml "gopkg.in/yaml.v3"
@@ -585,4 +587,65 @@ func VerifC13EmptyMerges() {
 	}
 	verifObserve("exploded", vDump(h))
 	verifCover("C13/empty-merges/end")
+}
+
+// c13RecEncoder: an encoder that cannot represent aliases (as JSON, properties, XML, CSV, TOML, Lua, shell) and
+// records the node it is handed.
+type c13RecEncoder struct{ nodes *[]*CandidateNode }
+
+func (e *c13RecEncoder) Encode(_ io.Writer, node *CandidateNode) error {
+	*e.nodes = append(*e.nodes, node)
+	return nil
+}
+func (e *c13RecEncoder) PrintDocumentSeparator(_ io.Writer) error         { return nil }
+func (e *c13RecEncoder) PrintLeadingContent(_ io.Writer, _ string) error { return nil }
+func (e *c13RecEncoder) CanHandleAliases() bool                          { return false }
+
+// VerifC13PrinterDocuments: what the REAL printer hands to an encoder that cannot represent aliases, for the k-th
+// document it prints (k = 1..3; the earlier ones with or without aliases of their own): no alias, merge key or anchor
+// is left in it, and it is the document that `explode(.)` gives - the same for every k.
+func VerifC13PrinterDocuments() {
+	ka1, ka2, kb1, kb2, e1, e2 := c13Keys()
+	mergeKind := verifChoice("merge", 6)
+	pos := verifChoice("pos", 3)
+	if mergeKind == 5 && pos != 0 && verifParam("nestedlistallpos", 0) == 0 {
+		return
+	}
+	earlier := verifChoice("earlierDocuments", 3)
+	earlierKind := verifChoice("earlierKind", 3)
+	var nodes []*CandidateNode
+	var out bytes.Buffer
+	printer := NewPrinter(&c13RecEncoder{nodes: &nodes}, NewSinglePrinterWriter(&out))
+	for i := 0; i < earlier; i++ {
+		var other *CandidateNode
+		switch earlierKind {
+		case 0:
+			other = vDocAt(vMap(vStr("p"), vInt("1")), uint(i), 0, "f.yml")
+		case 1:
+			other = vDocAt(c13Build(ka1, ka2, kb1, kb2, e1, e2, 0, 0), uint(i), 0, "f.yml")
+		default:
+			other = vDocAt(vNull(), uint(i), 0, "f.yml") // prints nothing that counts as output (null / false results)
+		}
+		if err := printer.PrintResults(other.AsList()); err != nil {
+			verifFail("C13/printer-error earlier document")
+		}
+	}
+	doc := vDocAt(c13Build(ka1, ka2, kb1, kb2, e1, e2, mergeKind, pos), uint(earlier), 0, "f.yml")
+	before := len(nodes)
+	err := printer.PrintResults(doc.AsList())
+	label := "document=" + verifItoa(int64(earlier+1)) + " " + c13MergeNames[mergeKind] + " " + c13PosNames[pos]
+	verifAssert(err == nil && len(nodes) == before+1, "C13/printer-error "+label)
+	if err != nil || len(nodes) != before+1 {
+		return
+	}
+	got := nodes[before]
+	verifAssert(c13Clean(got), "C13/printer-hands-an-alias-merge-key-or-anchor-to-an-encoder-without-aliases "+label)
+	twin := vDoc(c13Build(ka1, ka2, kb1, kb2, e1, e2, mergeKind, pos))
+	exp := ExpressionNode{Operation: &Operation{OperationType: explodeOpType}}
+	if _, err := vEval(&exp, twin); err != nil {
+		verifFail("C13/explode-failed " + label)
+	}
+	verifObserve("got", vDump(got))
+	verifAssert(verifEqStr(vDump(got), vDump(twin)), "C13/printed-document-differs-from-explode "+label)
+	verifCover("C13/printer-docs/end")
 }
